@@ -7,6 +7,7 @@ import (
 	"math/big"
 	"math/rand"
 	"strings"
+	"sync"
 
 	"github.com/consensys/gnark-crypto/ecc"
 	"github.com/consensys/gnark/constraint"
@@ -114,6 +115,8 @@ func c06(raw json.RawMessage, resp *drv.Response) error {
 		return c06Protocol(req, resp, rng)
 	case "values":
 		return c06Values(req, resp, rng)
+	case "registry":
+		return c06Registry(req, resp, rng)
 	}
 	return fmt.Errorf("unknown part %q", req.Part)
 }
@@ -500,4 +503,53 @@ func commitmentOverrides(ccs constraint.ConstraintSystem) []solver.Option {
 		}))
 	}
 	return opts
+}
+
+// c06Registry binds ChipRegistry.tla: goroutines construct the chip for one builder and request checks concurrently
+// (commit mode, padded); exactly one chip, one deferred flush, and no lost request.
+func c06Registry(req c06Req, resp *drv.Response, rng *rand.Rand) error {
+	for rep := 0; rep < 6; rep++ {
+		threads := 8 + rng.Intn(9)
+		per := (commitPad+threads-1)/threads + rng.Intn(50)
+		total := threads * per
+		cfg := &engine.Config{Mode: engine.Commit, RecordEvts: map[string]bool{"newchip": true, "rcflush": true}}
+		vals := padValues(total, rng)
+		err := hc.Run(cfg, vals, func(api frontend.API, in []frontend.Variable) error {
+			var wg sync.WaitGroup
+			chips := make([]*gl.Chip, threads)
+			for t := 0; t < threads; t++ {
+				wg.Add(1)
+				go func(t int) {
+					defer wg.Done()
+					chip := gl.New(api)
+					chips[t] = chip
+					for j := 0; j < per; j++ {
+						chip.RangeCheckWithMaxBits(gl.NewVariable(in[t*per+j]), 32)
+					}
+				}(t)
+			}
+			wg.Wait()
+			for t := 1; t < threads; t++ {
+				if chips[t] != chips[0] {
+					return fmt.Errorf("goroutines received different chips for the same builder")
+				}
+			}
+			return nil
+		})
+		resp.Count(fmt.Sprintf("registry/%d/%d/%d", rep, threads, per), false)
+		nchips, flushed := 0, -1
+		for _, e := range cfg.Events {
+			if e.Kind == "newchip" {
+				nchips++
+			}
+			if e.Kind == "rcflush" {
+				flushed = e.Args[0].(int)
+			}
+		}
+		if err != nil || nchips != 1 || flushed != total {
+			resp.Violate("c06/registry/concurrency", fmt.Sprintf("%d goroutines x %d requests: chips created %d (want 1), requests flushed %d (want %d), err=%v", threads, per, nchips, flushed, total, firstLine(err)), nil)
+		}
+		resp.Sample(map[string]any{"goroutines": threads, "requests": total, "chips_created": nchips, "flushed": flushed})
+	}
+	return nil
 }
